@@ -8,16 +8,19 @@ Record armed := mkArmed { ar_send : option N; ar_recv : option N; ar_resp : opti
                          (* what decides the client's PINGREQ interval, learnt from operations and events only *)
                          ar_user : option N;      (* application override (set_pingreq_send_interval) *)
                          ar_ska : option N;       (* Server Keep Alive of this connection's CONNACK, ms *)
-                         ar_ka : N }.             (* keep-alive of the CONNECT sent, ms *)
-Definition armed0 : armed := mkArmed None None None None None 0.
+                         ar_ka : N;               (* keep-alive of the CONNECT sent, ms *)
+                         (* what decides a server's receive timeout, learnt from operations and events only: 1.5 x the
+                            keep-alive of the CONNECT received, replaced by 1.5 x the Server Keep Alive of the CONNACK sent *)
+                         ar_rto : N }.
+Definition armed0 : armed := mkArmed None None None None None 0 0.
 
 Definition ar_get (a : armed) (k : timer) : option N :=
   match k with TPingreqSend => ar_send a | TPingreqRecv => ar_recv a | TPingrespRecv => ar_resp a end.
 Definition ar_set (a : armed) (k : timer) (v : option N) : armed :=
   match k with
-  | TPingreqSend => mkArmed v (ar_recv a) (ar_resp a) (ar_user a) (ar_ska a) (ar_ka a)
-  | TPingreqRecv => mkArmed (ar_send a) v (ar_resp a) (ar_user a) (ar_ska a) (ar_ka a)
-  | TPingrespRecv => mkArmed (ar_send a) (ar_recv a) v (ar_user a) (ar_ska a) (ar_ka a)
+  | TPingreqSend => mkArmed v (ar_recv a) (ar_resp a) (ar_user a) (ar_ska a) (ar_ka a) (ar_rto a)
+  | TPingreqRecv => mkArmed (ar_send a) v (ar_resp a) (ar_user a) (ar_ska a) (ar_ka a) (ar_rto a)
+  | TPingrespRecv => mkArmed (ar_send a) (ar_recv a) v (ar_user a) (ar_ska a) (ar_ka a) (ar_rto a)
   end.
 Definition is_some {A} (o : option A) : bool := match o with Some _ => true | None => false end.
 
@@ -37,7 +40,9 @@ Definition pick_interval (a : armed) : N :=
   | None => match ar_ska a with Some t => t | None => ar_ka a end
   end.
 Definition ar_set_cfg (a : armed) (u : option N) (s : option N) (k : N) : armed :=
-  mkArmed (ar_send a) (ar_recv a) (ar_resp a) u s k.
+  mkArmed (ar_send a) (ar_recv a) (ar_resp a) u s k (ar_rto a).
+Definition ar_set_rto (a : armed) (t : N) : armed :=
+  mkArmed (ar_send a) (ar_recv a) (ar_resp a) (ar_user a) (ar_ska a) (ar_ka a) t.
 
 (* the events after the last ESend *)
 Fixpoint after_last_send (l : list event) (acc : list event) : list event :=
@@ -72,6 +77,22 @@ Definition judge_c15 (g : cfg) (a : armed) (o : obs) : list N * armed :=
   let a0 := match filter (fun p => (k_type p =? T_CONNACK) && (k_rc p =? 0)) (notifies evs) with
             | p :: _ => match k_ska p with Some sk => ar_set_cfg a0 (ar_user a0) (Some (sk * 1000)) (ar_ka a0) | None => a0 end
             | [] => a0 end in
+  (* the receive timeout: a CONNECT sent or received starts from 0; the received CONNECT's keep-alive, then the
+     Server Keep Alive of a successful v5.0 CONNACK that is sent, decide it *)
+  let a0 :=
+    match ob_op o with
+    | OSend p =>
+      if (k_type p =? T_CONNECT) && negb (existsb is_error evs) then ar_set_rto a0 0
+      else if (k_type p =? T_CONNACK) && version_eqb (k_ver p) V50 && (k_rc p =? 0) && sends_type T_CONNACK evs then
+        match k_ska p with Some sk => ar_set_rto a0 (sk * 1000 * 3 / 2) | None => a0 end
+      else a0
+    | ORecv _ _ =>
+      match filter (fun p => k_type p =? T_CONNECT) (notifies evs) with
+      | p :: _ => ar_set_rto a0 (k_keep_alive p * 1000 * 3 / 2)
+      | [] => a0
+      end
+    | _ => a0
+    end in
   match track a0 evs with
   | None => ([1], a)                                          (* cancel of a timer that is not armed *)
   | Some a1 =>
@@ -154,7 +175,21 @@ Definition judge_c15 (g : cfg) (a : armed) (o : obs) : list N * armed :=
           end
         | _ => []
         end in
-      (v3, a1)
+      (* ... and at every moment it is what the CONNECT received and the CONNACK sent said, not what an earlier
+         connection or an expiry left behind *)
+      let v4 := match v3 with
+                | _ :: _ => v3
+                | [] => if c_pingreq_recv_to post =? ar_rto a1 then [] else [18; c_pingreq_recv_to post; ar_rto a1]
+                end in
+      (* an override of 0 disables PINGREQ sending on the spot, in whatever state the connection is *)
+      let v5 := match v4 with
+                | _ :: _ => v4
+                | [] => match ob_op o with
+                        | OSetPingreqInterval (Some 0) => if is_some (ar_send a1) then [19] else []
+                        | _ => []
+                        end
+                end in
+      (v5, a1)
     | _ => (v2, a1)
     end
   end.
